@@ -276,7 +276,7 @@ def strip_comments(src: str) -> str:
 
 
 # further theorem files of a property (built, scanned and axiom-audited with the main one)
-EXTRA_PROPERTY_FILES = {"C08": ["C08odd"], "C12": ["C12obj"], "C09": ["C09obj"], "C13": ["C13point"]}
+EXTRA_PROPERTY_FILES = {"C08": ["C08odd"], "C12": ["C12obj"], "C09": ["C09obj"], "C13": ["C13point"], "C17": ["C17routes"], "C16": ["C17routes"]}
 
 
 def lean_leg(pid: str, thorough: bool) -> dict:
